@@ -1,48 +1,24 @@
 import Ucan.Driver.Hex
 import Ucan.Model.Did
+import Ucan.Model.Base58
 /-!
 `did.parse <texthex>`                 -> `err` | `ok <printed text hex>`
 `did.pubkey <texthex> <oracle>`       -> `perr` | `err` | `ok <canonical key bytes hex>`
    oracle = `-` (the per-codec unmarshaller refuses the key material) or the hex of the canonical
    marshalling of the key it yields, both computed by the harness with the crypto libraries directly
 `did.frompub <code> <keybyteshex>`    -> printed did:key text (hex)
-Base58btc here is executable driver code (not part of any proof): the theorems take it as a parameter.
+Base58btc is `Model/Base58.lean`, the functions `C16_*_base58` are about.
 -/
 namespace Ucan.Driver
 open Ucan.Did
 
-def b58Alphabet : List Char := "123456789ABCDEFGHJKLMNPQRSTUVWXYZabcdefghijkmnopqrstuvwxyz".toList
+/-- base-58 and multibase are the MODEL's functions (`Model/Base58.lean`, round trip proved in `Lemmas/Base58.lean`) -/
+def b58Encode (b : Bytes) : Bytes := Base58.encode b
 
-def b58Index (c : Char) : Option Nat := b58Alphabet.findIdx? (· == c)
-
-def bytesToNat (b : Bytes) : Nat := b.foldl (fun acc x => acc * 256 + x.toNat) 0
-
-partial def natToBytes (n : Nat) : Bytes :=
-  let rec go (n : Nat) (acc : Bytes) : Bytes := if n = 0 then acc else go (n / 256) (UInt8.ofNat (n % 256) :: acc)
-  go n []
-
-partial def natToB58 (n : Nat) : List Char :=
-  let rec go (n : Nat) (acc : List Char) : List Char :=
-    if n = 0 then acc else go (n / 58) ((b58Alphabet.getD (n % 58) '?') :: acc)
-  go n []
-
-def b58Encode (b : Bytes) : Bytes :=
-  let zeros := (b.takeWhile (· == 0)).length
-  let cs := List.replicate zeros '1' ++ natToB58 (bytesToNat b)
-  cs.map (fun c => UInt8.ofNat c.toNat)
-
-def b58Decode (s : Bytes) : Option Bytes := do
-  let cs := s.map (fun b => Char.ofNat b.toNat)
-  let idx ← cs.mapM b58Index
-  let zeros := (cs.takeWhile (· == '1')).length
-  let n := idx.foldl (fun acc d => acc * 58 + d) 0
-  pure (List.replicate zeros 0 ++ natToBytes n)
-
-/-- `multibase.Decode` as far as `did.Parse` can tell: only base58btc yields an acceptable result -/
 def mbDecode (s : Bytes) : Option (Byte × Bytes) :=
   match s with
   | [] => none
-  | p :: r => if p = zChar then (b58Decode r).map (fun b => (zChar, b)) else none
+  | p :: r => if p = zChar then (Base58.decode r).map (fun b => (zChar, b)) else none
 
 def runDid : List String → Option String
   | ["did.parse", txt] => do
